@@ -237,6 +237,7 @@ def model_concurrent(sc):
     ev = []
     order = [0]
     tie = [False]
+    data_times = set()
 
     def push(t, kind, payload):
         order[0] += 1
@@ -288,9 +289,16 @@ def model_concurrent(sc):
     while ev:
         t, _, kind, payload = heapq.heappop(ev)
         if kind == 'start':
+            # a fetcher starting in the very instant a Data packet is due: whether its discovery Interest is already pending when
+            # that packet arrives depends on the loop's timer order - not judged
+            if any(e[0] == t and e[2] == 'data' for e in ev) or t in data_times:
+                tie[0] = True
             F[payload]['want'], F[payload]['trial'] = 'disc', 0
             express(payload, t)
         elif kind == 'data':
+            data_times.add(t)
+            if any(e[0] == t and e[2] == 'start' for e in ev):
+                tie[0] = True
             # two different Data packets due at the same instant: which one a discovery Interest sees first depends on the
             # loop's timer order, which nothing specifies - such scripts are not judged
             if any(e[0] == t and e[2] == 'data' and e[3] != payload for e in ev) and any(st['want'] == 'disc' for st in F):
@@ -455,7 +463,7 @@ def run(ctx):
                                                 'loss': {str(lk): loss} if loss else {}, 'fault': None})
         ctx.extra['exhaustive_subspace'] = f'{len(scripts)} scripts: sizes 0..4 x discovery answer x single lossy request (loss 0..retry) x retry 1..3 x marker'
         scripts = [s for i, s in enumerate(scripts) if i % ctx.nshards == ctx.shard]
-    for _ in range(ctx.n(900, 400000)):
+    for _ in range(ctx.n(900, 200000)):
         scripts.append(gen_script(rng))
     for sc in scripts:
         R, S = execute(sc)
@@ -468,7 +476,7 @@ def run(ctx):
         {'n': 4, 'retry': 3, 'version': False, 'marker': 'every', 'disc_answer': 0, 'delay': 88, 'starts': [0, 41, 79], 'loss': {'0:disc': 1, '0:1': 2, '2:2': 1}},
         {'n': 2, 'retry': 2, 'version': False, 'marker': 'every', 'disc_answer': 0, 'delay': 0, 'starts': [0, 0], 'loss': {}},
     ]
-    for sc in templates + [gen_concurrent(rng) for _ in range(ctx.n(250, 100000))]:
+    for sc in templates + [gen_concurrent(rng) for _ in range(ctx.n(250, 80000))]:
         obs, S = execute_concurrent(sc)
         judge_concurrent(ctx, sc, obs, S)
     for k in ('outcome-done', 'outcome-timeout', 'outcome-nack', 'outcome-valfail', 'concurrent-fetch', 'concurrent-outcome-done', 'concurrent-outcome-timeout',
